@@ -557,7 +557,7 @@ func init() {
 		Explanation: "Model: pending += r on encode; emit when the sum of pending encodings >= blockSize; on flush emit iff pending is non-empty. After every call the new bytes must be empty or exactly one block [canonical count][canonical size][payload][header sync]; count = |pending|; the decompressed payload (independent decompressor) must equal the concatenation of the pending records' encodings, each obtained at codec level and validated by the reference decoder against the value; after flush nothing stays buffered. Every call must return nil.",
 		Assumptions: []string{"map fields hold at most one entry (iteration order)", "record encodings are taken from Codec.Write, validated datum-by-datum by refavro (C02 covers the codecs themselves)"},
 		Modes:       func(tier string) []core.Mode { return []core.Mode{{Name: "plain", Variant: "plain"}} },
-		NumCases:    func(c *core.Ctx) int { return c.Pick(4000, 120000) },
+		NumCases:    func(c *core.Ctx) int { return c.Pick(10000, 240000) },
 		Run:         runC09,
 		Floors: func(a *core.Agg) []string {
 			var u []string
@@ -588,7 +588,7 @@ func init() {
 		Explanation: "The call during which write k happens must return a non-nil error with errors.Is(err, injected); earlier calls return nil; nothing panics. Prefix check with the random sync marker factored out: sync positions are learnt from the fault-free output via the reference parser, both byte strings are masked there, the masked accepted bytes must be a prefix of the masked fault-free bytes, and all sync bytes inside the accepted bytes must agree with each other.",
 		Assumptions: []string{"deflate and snappy output are deterministic for identical input, so the byte layout of both runs is identical", "map fields hold at most one entry"},
 		Modes:       func(tier string) []core.Mode { return []core.Mode{{Name: "plain", Variant: "plain"}} },
-		NumCases:    func(c *core.Ctx) int { return c.Pick(900, 30000) },
+		NumCases:    func(c *core.Ctx) int { return c.Pick(1500, 30000) },
 		Run:         runC16,
 		Floors: func(a *core.Agg) []string {
 			var u []string
